@@ -34,7 +34,16 @@ pub enum Hostile {
     /// a block the Byzantine leader signs for one of its own slots
     Block { slot: SlotPick, malform: BlockMalform, slices: u8 },
     /// a crafted, validly signed shred with an odd / empty / oversized payload
-    OddShred { slot: SlotPick, data_len: u16 },
+    /// (`first`: index of the first of the 40 shreds sent, so that reconstruction needs coding shreds; `mixed`: one of
+    /// them, counted from `first`, carries a payload of another even length under the same signed tree)
+    OddShred {
+        slot: SlotPick,
+        data_len: u16,
+        #[serde(default)]
+        first: u8,
+        #[serde(default)]
+        mixed: Option<(u8, u16)>,
+    },
     /// a genuine shred of the Byzantine leader with a mutated header / tag / proof
     MutatedShred { slot: SlotPick, which: u8, field: u8 },
     RepairRequest { sender: u64, kind: u8, slot: SlotPick, slice: u64, shred: u64 },
@@ -168,7 +177,8 @@ impl Property for C10 {
             1 => prop_oneof![Just(6u64), Just(u64::MAX), 6u64..3000].prop_map(|signer| Hostile::VoteBadSigner { signer }),
             2 => (ck, slot.clone(), -3i8..70).prop_map(|(kind, slot, mask_extra)| Hostile::Cert { kind, slot, mask_extra }),
             6 => (slot.clone(), malform, 1u8..4).prop_map(|(slot, malform, slices)| Hostile::Block { slot, malform, slices }),
-            2 => (slot.clone(), prop_oneof![Just(0u16), Just(1), Just(3), Just(1023), Just(1400), 0u16..1400]).prop_map(|(slot, data_len)| Hostile::OddShred { slot, data_len }),
+            2 => (slot.clone(), prop_oneof![Just(0u16), Just(1), Just(3), Just(1023), Just(1400), 0u16..1400], 0u8..=24, proptest::option::weighted(0.6, (0u8..40, prop_oneof![Just(2u16), 2u16..1400])))
+                .prop_map(|(slot, data_len, first, mixed)| Hostile::OddShred { slot, data_len, first, mixed }),
             2 => (slot.clone(), 0u8..64, 0u8..6).prop_map(|(slot, which, field)| Hostile::MutatedShred { slot, which, field }),
             2 => (prop_oneof![0u64..8, Just(u64::MAX)], 0u8..3, slot.clone(), prop_oneof![0u64..4, Just(1023u64)], 0u64..64).prop_map(|(sender, kind, slot, slice, shred)| Hostile::RepairRequest { sender, kind, slot, slice, shred }),
             1 => (0u8..4, slot).prop_map(|(kind, slot)| Hostile::RepairResponse { kind, slot }),
@@ -207,6 +217,21 @@ impl Property for C10 {
             },
             // known finding: Byzantine leader of the first window shows its slot-1 block to some nodes only
             serde_json::from_str(include_str!("../../regress/C10-genesis-split.json")).expect("regression case parses"),
+            // a validly signed shred set whose coding shred 38 has another (even) length, sent as shreds 8..48 so that
+            // reconstruction has to use coding shreds (seeded change C10-G: coding shreds no longer size-checked)
+            Case {
+                n: 6,
+                byz: 1,
+                seed: 5,
+                hostile: vec![
+                    (3, 255, Hostile::OddShred { slot: SlotPick::OwnWindow(1), data_len: 64, first: 8, mixed: Some((30, 128)) }),
+                    (5, 255, Hostile::OddShred { slot: SlotPick::OwnWindow(2), data_len: 1000, first: 20, mixed: Some((15, 2)) }),
+                ],
+                hostile_phase_s: 6,
+                equal_stakes: false,
+                shred_delay_ms: 0,
+                client: None,
+            },
             // fixed defects: oversized transactions; block for the last window before u64::MAX; parent in the same slot
             Case {
                 n: 6,
@@ -260,8 +285,12 @@ fn pick_slot(p: SlotPick, n: u64, byz: u64, now_slot: u64) -> u64 {
 }
 
 /// Builds a validly signed shred set over arbitrary raw shred payloads (what a Byzantine leader can sign).
-fn crafted_shreds(slot: u64, slice: usize, is_last: bool, data_len: usize, signer: usize) -> Vec<Vec<u8>> {
-    let raw: Vec<Vec<u8>> = (0..64).map(|i| prng_bytes(i as u64 ^ slot, data_len)).collect();
+fn crafted_shreds(slot: u64, slice: usize, is_last: bool, data_len: usize, signer: usize, mixed: Option<(usize, usize)>) -> Vec<Vec<u8>> {
+    let len_of = |i: usize| match mixed {
+        Some((j, l)) if j == i => l,
+        _ => data_len,
+    };
+    let raw: Vec<Vec<u8>> = (0..64).map(|i| prng_bytes(i as u64 ^ slot, len_of(i))).collect();
     let tree = SliceMerkleTree::new(raw.iter());
     let root = tree.get_root();
     let mut commitment = Vec::new();
@@ -371,9 +400,16 @@ fn hostile_bytes(h: &Hostile, n: usize, byz: usize, now_slot: u64) -> Vec<(Iface
                 }
             }
         }
-        Hostile::OddShred { slot, data_len } => {
+        Hostile::OddShred { slot, data_len, first, mixed } => {
             let s = pick_slot(*slot, n64, byz as u64, now_slot);
-            for b in crafted_shreds(s, 0, true, *data_len as usize, byz).into_iter().take(40) {
+            let first = (*first as usize).min(24);
+            // with a mixed-size shred the common length is made even and non-zero, so that the set is not
+            // refused for its size alone
+            let (len, mixed) = match mixed {
+                Some((j, l)) => (((*data_len as usize) & !1).max(2), Some((first + *j as usize % 40, ((*l as usize) & !1).max(2)))),
+                None => (*data_len as usize, None),
+            };
+            for b in crafted_shreds(s, 0, true, len, byz, mixed).into_iter().skip(first).take(40) {
                 out.push((Iface::Disseminator, b));
             }
         }
